@@ -213,6 +213,16 @@ def step (s : St) (j : Json) : R (St × Json) := do
     let a ← s.recH j "a"
     let b ← s.recH j "b"
     return (s, Json.mkObj [("eq", recEq (s.h.recCell a).r (s.h.recCell b).r)])
+  | "c03_classify" =>
+    let c ← s.cont j "c"
+    let q ← getNs3 (← j.getObjVal? "q")
+    let m := s.h.mgrOf c
+    let par := s.h.parentOf c
+    return (s, Json.mkObj [
+      ("owns", decide (m.Owns q)),
+      ("wf", decide (WfName q)),
+      ("parent_owns", match par with | some p => decide (p.Owns q) | none => false),
+      ("own_resolves", (m.resolveOwn q.print).isSome)])
   | "obs" =>
     let c ← s.cont j "c"
     return (s, encCont s.h c)
